@@ -82,6 +82,22 @@ def ob_b(letter: int, alt: int, octave: int, upper: bool, style: int) -> bool:
     check(out2 == out1, lambda: f'exporting twice differs: {out1!r} then {out2!r}')
     q = kp.HumdrumPitchImporter().import_pitch(out1)
     check(q == p, lambda: f're-import of {out1!r} gives {q} != {p}')
+    # the same object moved through its public setters after it was exported (and hashed): what is exported is the pitch as it is NOW
+    hash(p)
+    o2 = octave + 1 if octave < hi else octave - 1
+    p.octave = o2
+    exp2 = spelling(letter, alt, o2)
+    out3 = ex.export_pitch(p)
+    check(out3 == exp2, lambda: f'pitch exported as {out1!r}, its octave then set to {o2}: the same exporter now gives {out3!r}, expected {exp2!r}')
+    out3b = kp.HumdrumPitchExporter().export_pitch(p)
+    check(out3b == exp2, lambda: f'pitch exported as {out1!r}, its octave then set to {o2}: a fresh exporter gives {out3b!r}, expected {exp2!r}')
+    l3 = (letter + 2) % 7
+    p.name = (LETTERS[l3].upper() if upper else LETTERS[l3]) + name[1:]
+    exp3 = spelling(l3, alt, o2)
+    out4 = ex.export_pitch(p)
+    check(out4 == exp3, lambda: f'pitch renamed to {p.name!r} after two exports: {out4!r}, expected {exp3!r}')
+    q3 = kp.HumdrumPitchImporter().import_pitch(out4)
+    check(q3 == p, lambda: f're-import of {out4!r} gives {q3} != {p}')
     return True
 
 
@@ -174,10 +190,10 @@ OBLIGATIONS = [
        symbolic='letter index, alteration, octave (integers)', enumerated='-',
        bounds={'quick': '7 letters x alterations -3..3 x octaves -1..9', 'thorough': '7 letters x alterations -3..3 x octaves -3..12'},
        describe=_desc_a),
-    Ob(id='C16.b', fn=ob_b, title='directly built pitch objects exported twice, both accidental spellings',
+    Ob(id='C16.b', fn=ob_b, title='directly built pitch objects exported twice, both accidental spellings; then moved through their setters and exported again',
        shard_of=lambda letter, alt, octave, upper, style: letter + 7 * (alt + 3),
-       shards={'quick': 8, 'thorough': 14},
-       budget_s={'quick': 120, 'thorough': 600},
+       shards={'quick': 16, 'thorough': 16},
+       budget_s={'quick': 170, 'thorough': 900},
        witnesses=[{'letter': 0, 'alt': -1, 'octave': 0, 'upper': True, 'style': 1}],
        min_confirmed=100,
        symbolic='letter index, alteration, octave, case flag, accidental style', enumerated='-',
